@@ -34,6 +34,9 @@ def run(chk):
     total += parse.replay_verdicts(chk, th, cases, "c04:tokens", chk.seed)
     # one edit away from every sentence: a refused token inside an otherwise complete program (decided by the automaton)
     edits = parse.sentence_edits(cases, chk.seed, per_sentence=150 if chk.thorough else None)
+    if len(edits) > 400000:            # thorough tier: a seeded sample of the (millions of) edits of the longer sentences
+        import random
+        edits = random.Random(chk.seed).sample(edits, 400000)
     ev = parse.decide(chk, edits, name="edits")
     total += parse.replay_decided(chk, th, edits, ev, "c04:edits", chk.seed + 5)
     chk.add("sentence_edits", len(edits))
